@@ -203,7 +203,7 @@ def run(ctx):
             model, dbg = [], []
         ops_total += len(ls)
         for l, a in zip(ls, impl):
-            op_dist[l[0]] = op_dist.get(l[0], 0) + 1
+            op_dist[l.split(" ")[0]] = op_dist.get(l.split(" ")[0], 0) + 1
             st = sat_lib.parse_state(a)
             if st.get("rc") == "skip":
                 skips += 1
@@ -277,7 +277,8 @@ def run(ctx):
             return kk is not None
         mini = shrink(ls[:k + 1], differs, budget=60 if ctx.thorough else 20)
         ctx.violation("corr:sat:" + {"v": "new_var", "c": "new_clause", "a": "assume", "p": "propagate", "o": "pop", "n": "next",
-                                     "k": "check", "s": "simplify_db", "r": "reset"}.get(op, op),
+                                     "k": "check", "s": "simplify_db", "r": "reset",
+                                     "tc": "theory-propagate-check", "tx": "backtrack_analyze_and_backjump"}.get(op, op),
                       {"kind": "model-differs-from-implementation", "correspondence": "corr:sat (Gallina sat_core vs C++ sat_core)",
                        "family": fam, "history": ls[:k + 1], "minimised": mini, "disagreeing_histories": len(corr_candidates),
                        "implementation": impl[k] if k < len(impl) else None, "model": model[k] if k < len(model) else None,
